@@ -222,7 +222,7 @@ func c11BuildTemplates(t *testing.T, root string) map[string]*c11Tmpl {
 
 type c11Reader struct {
 	snap int    // index into the template's ids
-	kind string // rc | rcc | slow | edge | stall | stall-late | read-stall | oc
+	kind string // rc | rcc | slow | edge | stall | stall-late | read-stall | oc | occ
 	then string // kind of a second stream the same consumer opens on the same snapshot once the first one is done ("" = none)
 }
 
@@ -233,6 +233,7 @@ type c11Scn struct {
 	reapers   []string // "once" | "retry"
 	creator   string   // "" | "full" | "inc"
 	threshold int      // background reaper threshold (0: background reaper never runs)
+	noTimeout bool     // Store.SetReadTimeout(0): no idle timer exists, only Close releases a stream
 	early     bool     // also explore "let time pass although a thread is enabled" (an idle timer firing at any point, at most once)
 	devQ      int      // total deviation bound, quick tier (-2: not in the quick tier)
 	devT      int      // thorough tier
@@ -266,6 +267,13 @@ func c11Scenarios() []c11Scn {
 		// the background reaper is parked behind a first stream; its consumer closes it and opens a second one before the woken reaper has run
 		{name: "bg-remove/create-full+oc,rc", tmpl: "older+create-full", readers: []c11Reader{{snap: 0, kind: "oc", then: "rc"}}, creator: "full", threshold: 2, devQ: 2, devT: 4},
 		{name: "bg-rewrite/create-inc+oc,rc", tmpl: "full+create-inc", readers: []c11Reader{{snap: 0, kind: "oc", then: "rc"}}, creator: "inc", threshold: 2, devQ: 2, devT: 3},
+		// idle timeout DISABLED (no timer is created; the once-flag alone makes Close idempotent):
+		// a single stream closed twice against an explicit reap,
+		{name: "t0/remove/rcc+reap", tmpl: "older,full", noTimeout: true, readers: []c11Reader{{snap: 0, kind: "rcc"}}, reapers: []string{"once"}, devQ: 3, devT: 5},
+		// stream A open and reading while stream B is opened and closed twice, explicit reap retried (B's second Close must not release A's hold),
+		{name: "t0/rewrite/rc+occ+retry", tmpl: "full,inc1", noTimeout: true, readers: []c11Reader{{snap: 1, kind: "rc"}, {snap: 1, kind: "occ"}}, reapers: []string{"retry"}, devQ: 2, devT: 4},
+		// and the same against the background reaper woken by a sink's Close
+		{name: "t0/bg-remove/create-full+rc+occ", tmpl: "older+create-full", noTimeout: true, readers: []c11Reader{{snap: 0, kind: "rc"}, {snap: 0, kind: "occ"}}, creator: "full", threshold: 2, devQ: 1, devT: 2},
 		// two streams (reader count 2 -> 0), one of them stalled, explicit reap retried
 		{name: "remove/rc+stall+retry", tmpl: "older,full", readers: []c11Reader{{snap: 0, kind: "rc"}, {snap: 0, kind: "stall"}}, reapers: []string{"retry"}, devQ: 2, devT: 4},
 		// background and explicit reaper together against one reader
@@ -488,6 +496,11 @@ func (x *c11Exec) reader(st *c11Stream) {
 	case "oc":
 		// opened and closed at once (the consumer's first stream; see c11Reader.then)
 		x.closeStream(st)
+	case "occ":
+		// opened, closed, and closed again (explicit Close + deferred Close), nothing read
+		x.closeStream(st)
+		vs.Point("c11:reader:second-close", "c11:fs")
+		x.closeStream(st)
 	case "stall-late":
 		time.Sleep(c11Timeout * 3 / 2)
 		vs.Point("c11:reader:woke", "c11:fs")
@@ -663,7 +676,11 @@ func c11Body(sc *c11Scn, env *c11Env) vs.Body {
 			}
 			st.fatalFn = nil
 			st.logger = log.New(io.Discard, "", 0)
-			st.SetReadTimeout(c11Timeout)
+			if sc.noTimeout {
+				st.SetReadTimeout(0)
+			} else {
+				st.SetReadTimeout(c11Timeout)
+			}
 			st.SetNoVerifyDB(true) // the post-checkpoint integrity_check is not part of this property (C05/C12)
 			if sc.threshold > 0 {
 				st.SetReapThreshold(sc.threshold)
@@ -755,7 +772,7 @@ func c11Body(sc *c11Scn, env *c11Env) vs.Body {
 		// reaper or waiter always outlasts every stream): let its timeout pass.
 		var until time.Time
 		for _, st := range x.streams {
-			if st.held() && len(st.activity) > 0 {
+			if st.held() && len(st.activity) > 0 && !sc.noTimeout {
 				if u := st.activity[len(st.activity)-1].Add(c11Timeout + time.Second); u.After(until) {
 					until = u
 				}
